@@ -276,6 +276,15 @@ fn run_board(prop: Prop, tier: Tier) -> i32 {
         fams.push(json!({"family": sf.name(), "index_space": sf.len(), "legal_members": n, "flipped_members": n2, "secs": t0.elapsed().as_secs_f64()}));
     }
 
+    // RIGHTSxEP: castling rights of both sides x a pending e.p. square x home-rook captures (complete)
+    {
+        let t0 = Instant::now();
+        let fam = RightsEp;
+        let n = for_family(&fam, &|p| visit(&ctx, p));
+        let n2 = for_family(&Flipped(&fam), &|p| visit(&ctx, p));
+        fams.push(json!({"family": fam.name(), "index_space": fam.len(), "legal_members": n, "flipped_members": n2, "secs": t0.elapsed().as_secs_f64()}));
+    }
+
     set_render(8, 16);
     // EDGE5 (wrap-around geometry), a co-prime sub-lattice
     if matches!(prop, Prop::C01 | Prop::C02 | Prop::C03 | Prop::C05) {
